@@ -328,6 +328,21 @@ func runSeq(c Case, s *hx.Sink, outDir string) string {
 						return
 					}
 					st.buf = nil
+					if (c.ID+uint64(n))%2 == 0 {
+						// every other time somebody looks at a prefix of the file in between (a smaller mapping,
+						// opened and closed without a write): the bytes of the file stay what they are
+						if fi, err := os.Stat(st.path); err == nil {
+							bsz := int64(files.BlockSize)
+							if small := fi.Size() / 2 / bsz * bsz; small > 0 {
+								if mf, err := files.NewMMFile(st.path, small); err == nil {
+									mf.Close()
+									s.Count("reopen:prefix-view-in-between")
+								} else {
+									s.DirectViolation(c.ID, "a prefix of the file could not be mapped", err.Error())
+								}
+							}
+						}
+					}
 					if err := st.open(false); err != nil {
 						out = "OutErr EOther"
 						s.DirectViolation(c.ID, "the file could not be mapped again", err.Error())
